@@ -127,6 +127,12 @@ class BoolGen(object):
                 if free:
                     name = r.choice(free)
                     self.features.add('boolean-named-like-a-macro')
+            elif r.random() < 0.25:
+                # names with capital letters, and names that differ from another boolean in case only
+                free = [x for x in ('Done', 'done', 'isOdd', 'OK', 'ok', 'Go', 'go', 'zbA') if x not in self.bools]
+                if free:
+                    name = r.choice(free)
+                    self.features.add('boolean-name-with-capitals')
             self.bools[name] = r.random() < 0.5
         n = r.choice(sorted(self.bools))
         return '\\boolean{%s}' % n, self.bools[n]
